@@ -39,10 +39,11 @@ def write_replay(prop, name, payload):
     json.dump(payload, open(p, 'w'), indent=1, default=str)
     return p
 
-def finish(prop, violations, known_hits, inconclusive):
+def finish(prop, violations, known_hits, inconclusive, notes=()):
     """violations: list of (key, replay_path, text); prints the protocol lines and returns the exit code"""
     for k, text in known_hits:
         print('KNOWN-FINDING: property=%s %s' % (prop, text))
+    for msg in list(notes)[:12]: print('NOTE: property=%s not covered (wall budget): %s' % (prop, msg))
     if inconclusive and not violations:
         for msg in inconclusive[:10]: print('INCONCLUSIVE: property=%s %s' % (prop, msg))
         return 2
